@@ -4,14 +4,11 @@
 //!   mv run <PROP> [--thorough] [--seed N] [--cases N] [--jobs N] [--include-known]
 //!   mv replay <PROP> <file> [--valgrind]
 //!   mv gen <PROP> [--seed N] [-n N]            print generated cases (generator health)
-mod case;
-mod child;
-mod driver;
-mod fam;
-mod gen;
-mod sched;
-mod util;
+#[global_allocator]
+static ALLOC: mayverif::lifo::Lifo = mayverif::lifo::Lifo;
 
+
+use mayverif::{child, driver, fam, gen};
 use std::path::PathBuf;
 
 fn bins() -> driver::Bins {
@@ -58,6 +55,8 @@ fn main() {
                 cases_override: arg_val(&args, "--cases").and_then(|s| s.parse().ok()),
                 include_known: args.iter().any(|a| a == "--include-known"),
                 no_valgrind: args.iter().any(|a| a == "--no-valgrind") || std::env::var_os("MV_NO_VALGRIND").is_some(),
+                no_fuzz: args.iter().any(|a| a == "--no-fuzz"),
+                fuzz_runs: arg_val(&args, "--fuzz-runs").and_then(|s| s.parse().ok()),
             };
             std::process::exit(driver::run_property(cfg));
         }
